@@ -96,4 +96,8 @@ End AxisSpec.
 Definition x_sampled (dt off : F64) (i : Z) : F64 := fadd (fmul (ofZ i) dt) off.
 Definition x_int (i : Z) : F64 := ofZ i.
 Definition x_ticks (ticks : list F64) (i : Z) : F64 := nth (Z.to_nat i) ticks f64_nan.
-Definition n_count (k : Z) : option Z := if k =? 0 then None else Some k.
+(** Integer axes (set / data frame): bounded by the label / row count; with no labels / rows the
+    axis is not bounded by the descriptor — indices are then considered up to 2^53, the range in
+    which an index is an exact double (the same bound as for sampled axes). *)
+Definition AXIS_MAX : Z := 9007199254740992.
+Definition n_count (k : Z) : option Z := if k =? 0 then Some (AXIS_MAX + 1) else Some k.
